@@ -193,3 +193,72 @@ Lemma callf_S prog fuel d f args m :
 Proof. reflexivity. Qed.
 
 Ltac xstep := repeat (progress (xrw; xcbn; rewrite ?nb2z; try change (0 =? 0) with true; try change (1 =? 0) with false)).
+
+(* ---- stores: the memory after a store, loads after a store, other blocks untouched *)
+Definition upd {A} (l : list A) (n : nat) (x : A) : list A := firstn n l ++ x :: skipn (S n) l.
+Lemma set_nth_upd {A} (l : list A) n x : (n < length l)%nat -> set_nth l n x = Some (upd l n x).
+Proof.
+  revert n; induction l as [|a l IH]; intros n H; cbn in H; [lia|].
+  destruct n as [|n]; [reflexivity|]. cbn [set_nth]. rewrite IH by lia. reflexivity.
+Qed.
+Lemma set_nth_none {A} (l : list A) n x : (length l <= n)%nat -> set_nth l n x = None.
+Proof.
+  revert n; induction l as [|a l IH]; intros n H; [destruct n; reflexivity|].
+  cbn in H. destruct n as [|n]; [lia|]. cbn [set_nth]. rewrite IH by lia. reflexivity.
+Qed.
+Lemma upd_length {A} (l : list A) n x : (n < length l)%nat -> length (upd l n x) = length l.
+Proof. intro H. unfold upd. rewrite app_length, firstn_length, Nat.min_l by lia. cbn [length]. rewrite skipn_length. lia. Qed.
+Lemma nth_error_upd_same {A} (l : list A) n x : (n < length l)%nat -> nth_error (upd l n x) n = Some x.
+Proof.
+  intro H. unfold upd. rewrite nth_error_app2 by (rewrite firstn_length; lia).
+  rewrite firstn_length, Nat.min_l, Nat.sub_diag by lia. reflexivity.
+Qed.
+Lemma nth_error_firstn_lt {A} (l : list A) n k : (k < n)%nat -> nth_error (firstn n l) k = nth_error l k.
+Proof.
+  revert n k; induction l as [|a l IH]; intros n k H; [rewrite firstn_nil; reflexivity|].
+  destruct n as [|n]; [lia|]. destruct k as [|k]; [reflexivity|]. cbn [firstn nth_error]. apply IH. lia.
+Qed.
+Lemma nth_error_skipn_add {A} (l : list A) n k : nth_error (skipn n l) k = nth_error l (n + k).
+Proof.
+  revert l; induction n as [|n IH]; intro l; [reflexivity|]. destruct l as [|a l]; [destruct k; reflexivity|]. apply IH.
+Qed.
+Lemma nth_error_upd_other {A} (l : list A) n k x : (n < length l)%nat -> k <> n -> nth_error (upd l n x) k = nth_error l k.
+Proof.
+  intros H Hk. unfold upd. destruct (Nat.lt_ge_cases k n) as [L|L].
+  - rewrite nth_error_app1 by (rewrite firstn_length; lia). apply nth_error_firstn_lt. exact L.
+  - rewrite nth_error_app2 by (rewrite firstn_length; lia). rewrite firstn_length, Nat.min_l by lia.
+    destruct (k - n)%nat as [|j] eqn:E; [lia|]. cbn [nth_error]. rewrite nth_error_skipn_add. f_equal. lia.
+Qed.
+
+Lemma store_ok (m : mem) b (blk : block) o v : nth_error m b = Some blk -> 0 <= o < Z.of_nat (length blk) ->
+  store m b o v = Ok (upd m b (upd blk (Z.to_nat o) v)).
+Proof.
+  intros Hm Ho. unfold store. rewrite Hm. destruct (Z.ltb_spec o 0); [lia|].
+  rewrite set_nth_upd by lia. rewrite set_nth_upd; [reflexivity|]. apply nth_error_Some. congruence.
+Qed.
+Lemma store_oob (m : mem) b (blk : block) o v : nth_error m b = Some blk -> (o < 0 \/ Z.of_nat (length blk) <= o) -> store m b o v = Err EOob.
+Proof.
+  intros Hm Ho. unfold store. rewrite Hm. destruct (Z.ltb_spec o 0); [reflexivity|].
+  rewrite set_nth_none by lia. reflexivity.
+Qed.
+(* the blocks of the memory after a store *)
+Lemma mem_upd_same (m : mem) b (blk' : block) : (b < length m)%nat -> nth_error (upd m b blk') b = Some blk'.
+Proof. apply nth_error_upd_same. Qed.
+Lemma mem_upd_other (m : mem) b b' (blk' : block) : (b < length m)%nat -> b' <> b -> nth_error (upd m b blk') b' = nth_error m b'.
+Proof. apply nth_error_upd_other. Qed.
+Lemma str_at_upd_other (m : mem) b (blk' : block) b' s : (b < length m)%nat -> b' <> b -> str_at m b' s -> str_at (upd m b blk') b' s.
+Proof. intros H Hne Hs. unfold str_at in *. rewrite mem_upd_other; assumption. Qed.
+Lemma load_upd_same (m : mem) b (blk : block) o v : nth_error m b = Some blk -> 0 <= o < Z.of_nat (length blk) ->
+  load (upd m b (upd blk (Z.to_nat o) v)) b o = Ok v.
+Proof.
+  intros Hm Ho. unfold load. rewrite mem_upd_same by (apply nth_error_Some; congruence).
+  destruct (Z.ltb_spec o 0); [lia|]. rewrite nth_error_upd_same by lia. reflexivity.
+Qed.
+Lemma load_upd_other_cell (m : mem) b (blk : block) o o' v : nth_error m b = Some blk -> 0 <= o < Z.of_nat (length blk) -> o' <> o -> 0 <= o' ->
+  load (upd m b (upd blk (Z.to_nat o) v)) b o' = load m b o'.
+Proof.
+  intros Hm Ho Hne Ho'. unfold load. rewrite mem_upd_same by (apply nth_error_Some; congruence). rewrite Hm.
+  destruct (Z.ltb_spec o' 0); [lia|]. rewrite nth_error_upd_other by lia. reflexivity.
+Qed.
+Lemma load_upd_other_block (m : mem) b (blk' : block) b' o : (b < length m)%nat -> b' <> b -> load (upd m b blk') b' o = load m b' o.
+Proof. intros H Hne. unfold load. rewrite mem_upd_other by assumption. reflexivity. Qed.
